@@ -158,38 +158,38 @@ type Violation struct {
 }
 
 type HarnessResult struct {
-	Name       string
-	Paths      int
-	Ends       map[string]int
-	Proved     map[string]int
-	Violated   map[string]int
-	Unknown    map[string]int
-	Violations []Violation
-	Covers     map[string]int
-	Funcs      map[string]bool
-	Events     map[string]bool
-	Queries    int
+	Name                 string
+	Paths                int
+	Ends                 map[string]int
+	Proved               map[string]int
+	Violated             map[string]int
+	Unknown              map[string]int
+	Violations           []Violation
+	Covers               map[string]int
+	Funcs                map[string]bool
+	Events               map[string]bool
+	Queries              int
 	Sat, Unsat, UnknownQ int
-	SolverSecs float64
-	WallSecs   float64
-	Steps      int
-	Err        string // non-empty => inconclusive
-	Samples    []PathSummary
-	Witnesses  []PathSummary // paths with model witnesses (for translator validation)
-	InitNotes  map[string]bool
-	Panics     map[string]int
-	MaxPaths   bool
+	SolverSecs           float64
+	WallSecs             float64
+	Steps                int
+	Err                  string // non-empty => inconclusive
+	Samples              []PathSummary
+	Witnesses            []PathSummary // paths with model witnesses (for translator validation)
+	InitNotes            map[string]bool
+	Panics               map[string]int
+	MaxPaths             bool
 }
 
 type ExploreOpts struct {
-	Workers     int
-	Unwind      int
-	MaxPaths    int
-	TimeoutMs   int
-	Tier        int
-	WitnessEvery int // take a path witness every n-th path (0 = never)
-	Seed        int64
-	SolverKind  string
+	Workers       int
+	Unwind        int
+	MaxPaths      int
+	TimeoutMs     int
+	Tier          int
+	WitnessEvery  int // take a path witness every n-th path (0 = never)
+	Seed          int64
+	SolverKind    string
 	TranscriptDir string
 }
 
@@ -272,6 +272,9 @@ func explore(P *Program, fn *ssa.Function, opts ExploreOpts) *HarnessResult {
 					}
 				}()
 				e.run(fn, nil, nil)
+				if len(e.goroutines) > 0 {
+					e.fail("a goroutine spawned by the code under test is never joined")
+				}
 			}()
 			// optional path witness
 			var wit map[string]string
